@@ -78,3 +78,10 @@ reg("C17", "model_checking", "TLA+ spec DsSeq model-checked with TLC; trace vali
     "outgoing frames with counters around 2^48-1 run on the real DataSecure; every trace (delivered or not, table entry afterwards, numbers sent, errors) must be a behaviour of the spec.",
     "Trusted: TLC; the rank abstraction of 48-bit numbers (order-preserving); frames are built with xknx's own SecureData (its correctness is C15/C19).",
     "DESIGN.md section 5 C17")
+
+reg("C34", "model_checking", "TLA+ spec Callbacks model-checked with TLC; trace validation of the real TelegramQueue callback dispatch",
+    "Callbacks (registration list, match rule, dispatch) is model-checked; random histories of registrations (filters, address lists, both, none, empty lists; outgoing flag; raising callables), "
+    "unregistrations and incoming/outgoing telegrams to group, internal and individual addresses run through a started XKNX with the real TelegramQueue; for every telegram the "
+    "callbacks invoked (in order) and device processing must equal the spec's.",
+    "Trusted: TLC, virtual-time loop, mocked interface. Filter denotations are written by hand for the filters used.",
+    "DESIGN.md section 5 C34")
